@@ -188,6 +188,8 @@ let run_op (g1 : bool) (dbg : bool) (op : str) (a : tok list) : str =
     unit_res (pop_multi_sig_verify k o c (List.map pkpt_of (list_of (arg 0))) (sigpt_of (arg 1)) (bytes_of (arg 2)))
   | "trait_aggregate_signatures" -> esig (aggregate_signatures k (List.map sigpt_of (list_of (arg 0))))
   | "trait_multi_from_signatures" -> esig (multi_from_signatures k (List.map sigpt_of (list_of (arg 0))))
+  | "trait_create_decryption_share" ->
+    in_m (in_res (fun s -> ":" ^ fmt_share s)) (sc_create_decryption_share k o c dbg (share_of (arg 0)) (pkpt_of (arg 1)))
   | "trait_partial_verify" ->
     (match scheme_of (arg 0) with
      | Basic -> unit_res (basic_partial_verify k o c (share_of (arg 1)) (share_of (arg 2)) (bytes_of (arg 3)))
